@@ -10,15 +10,70 @@ every rule sees one shape (source positions are kept for the reports).
 import ast
 
 
+def _negate(e):
+    """negation in normal form: comparisons flipped, De Morgan, double negation removed"""
+    if isinstance(e, ast.UnaryOp) and isinstance(e.op, ast.Not):
+        return e.operand
+    if isinstance(e, ast.BoolOp):
+        op = ast.Or() if isinstance(e.op, ast.And) else ast.And()
+        return ast.copy_location(ast.BoolOp(op=op, values=[_negate(v) for v in e.values]), e)
+    if isinstance(e, ast.Compare) and len(e.ops) == 1:
+        flip = {ast.Eq: ast.NotEq, ast.NotEq: ast.Eq, ast.In: ast.NotIn, ast.NotIn: ast.In, ast.Is: ast.IsNot, ast.IsNot: ast.Is,
+                ast.Lt: ast.GtE, ast.GtE: ast.Lt, ast.Gt: ast.LtE, ast.LtE: ast.Gt}
+        # ordering comparisons are NOT flipped (NaN / array semantics): keep `not (a < b)`
+        if type(e.ops[0]) in (ast.Eq, ast.NotEq, ast.In, ast.NotIn, ast.Is, ast.IsNot):
+            return ast.copy_location(ast.Compare(left=e.left, ops=[flip[type(e.ops[0])]()], comparators=e.comparators), e)
+    return ast.copy_location(ast.UnaryOp(op=ast.Not(), operand=e), e)
+
+
+class NNF(ast.NodeTransformer):
+    """`not (a or b)` -> `not a and not b`; `not a == b` -> `a != b`; `not x in y` -> `x not in y`; `not not x` -> `x` (in tests)"""
+    def visit_UnaryOp(self, n):
+        self.generic_visit(n)
+        if isinstance(n.op, ast.Not) and isinstance(n.operand, (ast.BoolOp, ast.UnaryOp)):
+            if isinstance(n.operand, ast.UnaryOp) and not isinstance(n.operand.op, ast.Not):
+                return n
+            return self.visit(_negate(n.operand)) if isinstance(n.operand, ast.BoolOp) else n.operand.operand
+        if isinstance(n.op, ast.Not) and isinstance(n.operand, ast.Compare) and len(n.operand.ops) == 1 and \
+                isinstance(n.operand.ops[0], (ast.Eq, ast.NotEq, ast.In, ast.NotIn, ast.Is, ast.IsNot)):
+            return _negate(n.operand)
+        return n
+
+
+def _polarity(e):
+    """(number of negative literals, disjunction at top level)"""
+    def negs(x):
+        if isinstance(x, ast.BoolOp):
+            return sum(negs(v) for v in x.values)
+        if isinstance(x, ast.UnaryOp) and isinstance(x.op, ast.Not):
+            return 1
+        if isinstance(x, ast.Compare) and len(x.ops) == 1 and isinstance(x.ops[0], (ast.NotEq, ast.NotIn, ast.IsNot)):
+            return 1
+        return 0
+    return (negs(e), 1 if isinstance(e, ast.BoolOp) and isinstance(e.op, ast.Or) else 0)
+
+
 class Shape(ast.NodeTransformer):
+    """two-armed `if` / conditional expressions get the polarity with fewer negative literals (tie: a conjunction at top level)"""
+    def _swap(self, test):
+        nt = NNF().visit(_negate(test))
+        return nt if _polarity(nt) < _polarity(test) else None
+
     def visit_If(self, n):
         self.generic_visit(n)
-        if n.orelse and isinstance(n.test, ast.UnaryOp) and isinstance(n.test.op, ast.Not) and \
-                not (len(n.orelse) == 1 and isinstance(n.orelse[0], ast.If)) and not (len(n.body) == 1 and isinstance(n.body[0], ast.If)):
-            new = ast.If(test=n.test.operand, body=n.orelse, orelse=n.body)
-            new = ast.copy_location(new, n)
-            new._swapped = True
-            return new
+        if n.orelse and not (len(n.orelse) == 1 and isinstance(n.orelse[0], ast.If)) and not (len(n.body) == 1 and isinstance(n.body[0], ast.If)):
+            nt = self._swap(n.test)
+            if nt is not None:
+                new = ast.copy_location(ast.If(test=nt, body=n.orelse, orelse=n.body), n)
+                new._swapped = True
+                return new
+        return n
+
+    def visit_IfExp(self, n):
+        self.generic_visit(n)
+        nt = self._swap(n.test)
+        if nt is not None:
+            return ast.copy_location(ast.IfExp(test=nt, body=n.orelse, orelse=n.body), n)
         return n
 
     def visit_Compare(self, n):
@@ -70,36 +125,6 @@ def inline_return_temps(tree):
 
 # ------------------------------------------------------------------------------------------------ structure
 TERMINATORS = (ast.Return, ast.Raise, ast.Continue, ast.Break)
-
-
-def _negate(e):
-    """negation in normal form: comparisons flipped, De Morgan, double negation removed"""
-    if isinstance(e, ast.UnaryOp) and isinstance(e.op, ast.Not):
-        return e.operand
-    if isinstance(e, ast.BoolOp):
-        op = ast.Or() if isinstance(e.op, ast.And) else ast.And()
-        return ast.copy_location(ast.BoolOp(op=op, values=[_negate(v) for v in e.values]), e)
-    if isinstance(e, ast.Compare) and len(e.ops) == 1:
-        flip = {ast.Eq: ast.NotEq, ast.NotEq: ast.Eq, ast.In: ast.NotIn, ast.NotIn: ast.In, ast.Is: ast.IsNot, ast.IsNot: ast.Is,
-                ast.Lt: ast.GtE, ast.GtE: ast.Lt, ast.Gt: ast.LtE, ast.LtE: ast.Gt}
-        # ordering comparisons are NOT flipped (NaN / array semantics): keep `not (a < b)`
-        if type(e.ops[0]) in (ast.Eq, ast.NotEq, ast.In, ast.NotIn, ast.Is, ast.IsNot):
-            return ast.copy_location(ast.Compare(left=e.left, ops=[flip[type(e.ops[0])]()], comparators=e.comparators), e)
-    return ast.copy_location(ast.UnaryOp(op=ast.Not(), operand=e), e)
-
-
-class NNF(ast.NodeTransformer):
-    """`not (a or b)` -> `not a and not b`; `not a == b` -> `a != b`; `not x in y` -> `x not in y`; `not not x` -> `x` (in tests)"""
-    def visit_UnaryOp(self, n):
-        self.generic_visit(n)
-        if isinstance(n.op, ast.Not) and isinstance(n.operand, (ast.BoolOp, ast.UnaryOp)):
-            if isinstance(n.operand, ast.UnaryOp) and not isinstance(n.operand.op, ast.Not):
-                return n
-            return self.visit(_negate(n.operand)) if isinstance(n.operand, ast.BoolOp) else n.operand.operand
-        if isinstance(n.op, ast.Not) and isinstance(n.operand, ast.Compare) and len(n.operand.ops) == 1 and \
-                isinstance(n.operand.ops[0], (ast.Eq, ast.NotEq, ast.In, ast.NotIn, ast.Is, ast.IsNot)):
-            return _negate(n.operand)
-        return n
 
 
 def _terminates(stmts):
@@ -245,8 +270,7 @@ def shape(tree):
     tree = NNF().visit(tree)
     tree = Shape().visit(tree)
     tree = structure(tree)
-    tree = Shape().visit(tree)           # the nesting step creates new `not` tests
-    tree = NNF().visit(tree)
+    tree = NNF().visit(tree)             # the nesting step creates new `not` tests
     tree = loops_to_comprehensions(tree)
     tree = merge_dict_stores(tree)
     return ast.fix_missing_locations(inline_return_temps(tree))
